@@ -8,7 +8,9 @@ for d in harmless/*/; do
   git -C /repo apply /verif/$d/patch.diff || { echo "$n: patch does not apply"; bad=1; continue; }
   cp -r evidence /tmp/evid-bak-h
   line="$n:"
-  for p in ${HARMLESS_PROPS:-C01 C02 C03 C04 C05 C06 C08 C10 C11 C15 C16 C17}; do
+  props=${HARMLESS_PROPS:-C01 C02 C03 C04 C05 C06 C08 C10 C11 C15 C16 C17}
+  [ -f $d/props.txt ] && [ -z "$HARMLESS_PROPS" ] && props=$(cat $d/props.txt)
+  for p in $props; do
     ./check $p > /tmp/harmless_$p.log 2>&1; rc=$?
     line="$line $p=$rc"
     [ $rc = 1 ] && { bad=1; grep -E "OBLIGATION|VIOLATION|witness" /tmp/harmless_$p.log | head -3; }
